@@ -1,0 +1,21 @@
+//go:build verif
+
+package client
+
+// VerifTableSizes reports the sizes of the per-exchange tables of the connection.
+// Read-only; used by the external simulation harness.
+func (cc *Conn) VerifTableSizes() map[string]int {
+	out := map[string]int{
+		"tokenHandlers": cc.tokenHandlerContainer.Length(),
+		"observations":  cc.observationHandler.VerifLen(),
+	}
+	if cc.blockWise != nil {
+		r, s := cc.blockWise.VerifSizes()
+		out["bwReceiving"] = r
+		out["bwSending"] = s
+	}
+	e, w := cc.LimitParallelRequests.VerifQueues()
+	out["limiterEndpoints"] = e
+	out["limiterWaiters"] = w
+	return out
+}
